@@ -284,6 +284,11 @@ def rules_c20(ctx):
                 s = {strip_cast(t[2])[0:2], strip_cast(t[3])[0:2]}
                 return ('field', 'second') in s and any(x[0] == 'static' and x[1].endswith('tombstone') for x in (strip_cast(t[2]), strip_cast(t[3])))
             return False
+        if not [t for t in throws_of(f, 'invalid_argument') if reachable(f, t)]:
+            moved = _tombstone_check_moved(ctx, U, f)
+            if moved is not None:
+                obs += moved
+                continue
         o = check('G6:tombstone', f, 'invalid_argument', cond6, [], 'the reserved tombstone value is rejected with std::invalid_argument', 'the item exists')
         # `second` must be the value parameter
         ini = [i for i in f.d.get('inits', []) if i.get('field') == 'second']
@@ -459,6 +464,55 @@ def rules_c20(ctx):
         ok = bool(ins) and bool(cons) and all(g.before(c, ins[0]) for c in cons) and not [o for o in others if g.before(o, cons[0])]
         obs.append(Ob('GUARD-DOM', f, ins[0] if ins else 0, 'a rejected insert leaves the container unchanged: the (possibly throwing) Item is constructed before the first mutating call',
                       f"Item(key, value) constructed before insert(): {ok}", OK if ok else VIOLATED, arm='G12:atomic-reject'))
+    return obs
+
+
+def _tombstone_check_moved(ctx, U, item_ctor):
+    """The Item constructor no longer rejects the tombstone.  That is a violation unless the rejection moved to the public entry
+    points that store a user value.  insert_or_assign(key, value) is decided here (a throw under `value == tombstone` that
+    dominates the insert); for the bulk-load constructor the rejection has to cover every element of the range, a quantified
+    fact about a loop that this rule does not decide: undecided, never a pass."""
+    def is_tomb(t, pname=None):
+        t = strip_cast(t)
+        if not (t[0] == 'op' and t[1] == '==' and len(t) == 4):
+            return False
+        a, b = strip_cast(t[2]), strip_cast(t[3])
+        tomb = [x for x in (a, b) if x[0] == 'static' and str(x[1]).endswith('tombstone')]
+        other = [x for x in (a, b) if not (x[0] == 'static' and str(x[1]).endswith('tombstone'))]
+        if not tomb or not other:
+            return False
+        return pname is None or other[0] == ('param', pname)
+    obs = []
+    found_any = False
+    for f in ctx.need('pgm::DynamicPGMIndex::insert_or_assign', U):
+        if (f.targs.get('V'), f.targs.get('K')) != (item_ctor.targs.get('V'), item_ctor.targs.get('K')):
+            continue
+        ins = f.calls_to('pgm::DynamicPGMIndex::insert')
+        vname = f.params[1]['name'] if len(f.params) == 2 else None
+        good = None
+        for t in throws_of(f, 'invalid_argument'):
+            if not reachable(f, t):
+                continue
+            gb, c = guard_of(f, t)
+            if gb is not None and is_tomb(f.term(c, inline=True), vname):
+                good = (t, gb, c)
+        if good is None:
+            continue
+        found_any = True
+        late = [e for e in ins if reachable(f, e) and not dominates_node(f, good[1], e)]
+        obs.append(Ob('GUARD-DOM', f, good[0], 'the reserved tombstone value is rejected with std::invalid_argument before the item is inserted',
+                      f"throw under `{fmt_term(f.term(good[2], inline=False))[:80]}`" + (f"; does not dominate insert() at line {f.n(late[0])['l']}" if late else '; dominates insert()'),
+                      VIOLATED if late or not ins else OK, arm='G6:tombstone'))
+    if not found_any:
+        return None         # nothing moved: the ordinary report (no throw in the Item constructor) stands
+    for f in ctx.need('pgm::DynamicPGMIndex::DynamicPGMIndex', U):
+        if not {'first', 'last'} <= {p_['name'] for p_ in f.params} or (f.targs.get('V'), f.targs.get('K')) != (item_ctor.targs.get('V'), item_ctor.targs.get('K')):
+            continue
+        has = any(reachable(f, t) and guard_of(f, t)[0] is not None and is_tomb(f.term(guard_of(f, t)[1], inline=True)) for t in throws_of(f, 'invalid_argument'))
+        obs.append(Ob('GUARD-DOM', f, 0, 'every value of a bulk-loaded range is tested against the tombstone before it is stored',
+                      ('a tombstone test exists in the constructor' if has else 'no tombstone test in the constructor') +
+                      '; the Item constructor no longer rejects it, and whether the test covers every element of the range is a fact about a loop that this rule does not decide',
+                      UNDECIDED if has else VIOLATED, arm='G6:tombstone'))
     return obs
 
 
